@@ -123,7 +123,7 @@ def _fork_server(ctrl_r, ack_w, job_r, res_w):
 
 def _dispatch_one(job, out, ctrl_w, ack_r, job_w, res_r):
     wall_cap = float(job.get("wall_cap", 60))
-    data = json.dumps(job, sort_keys=True).encode()
+    data = json.dumps(job).encode()
     payload = len(data).to_bytes(8, "big") + data
     off = 0
     if len(payload) <= 60000:
